@@ -86,8 +86,11 @@ class Snapshot:
                     self.end_light(light)
 
         if not any_found:
-            self.append('No lights found.\n')
+            self.none_found()
         return self
+
+    def none_found(self):
+        self.append('No lights found.\n')
 
 
 class ScriptSnapshot(Snapshot):
@@ -95,6 +98,10 @@ class ScriptSnapshot(Snapshot):
         super().start_snapshot()
         # The captured settings are raw values.
         self.append('units raw\n')
+
+    def none_found(self):
+        # Keep the generated text a valid script.
+        self.append('# No lights found.\n')
 
     def setting(self, reg, value):
         self.append('{} {:.0f} '.format(reg.name.lower(), value))
